@@ -202,6 +202,8 @@ def entries():
     add("Exp", "transform", lambda: NL.Exp(), _rn(3), flags={"anyshape", "inv", "noparams"}, y=_ru(3, lo=0.1, hi=3.0))
     add("Tanh", "transform", lambda: NL.Tanh(), _rn(3), flags={"anyshape", "inv", "noparams"}, y=_ru(3, lo=-0.9, hi=0.9))
     add("LogTanh", "transform", lambda: NL.LogTanh(cut_point=1), (lambda n, g: 2.0 * torch.randn(n, 3, generator=g)), flags={"anyshape", "inv", "noparams"})
+    add("LogTanh/cut=2.5", "transform", lambda: NL.LogTanh(cut_point=2.5), (lambda n, g: 3.0 * torch.randn(n, 3, generator=g)), flags={"anyshape", "inv", "noparams"})
+    add("LogTanh/cut=0.4", "transform", lambda: NL.LogTanh(cut_point=0.4), (lambda n, g: 1.5 * torch.randn(n, 3, generator=g)), flags={"anyshape", "inv", "noparams"})
     add("LeakyReLU", "transform", lambda: NL.LeakyReLU(0.1), _rn(3), flags={"anyshape", "inv", "noparams"})
     add("LeakyReLU/slope>1", "transform", lambda: NL.LeakyReLU(2.5), _rn(3), flags={"anyshape", "inv", "noparams"})
     add("Sigmoid/numpy-temperature", "transform", lambda: NL.Sigmoid(temperature=1.0 / np.sqrt(2.0)), _rn(3), flags={"inv", "noparams"}, y=_ru(3))
